@@ -1,4 +1,6 @@
 mod gen;
+mod genmsg;
+mod ops3;
 mod ops;
 mod ops2;
 mod oracles;
@@ -17,8 +19,6 @@ fn main() {
     if args.len() < 2 {
         usage();
     }
-    // panics are outcomes here, not diagnostics
-    std::panic::set_hook(Box::new(|_| {}));
     match args[1].as_str() {
         "gen" => {
             if args.len() != 6 {
@@ -35,6 +35,8 @@ fn main() {
             if args.len() != 5 {
                 usage();
             }
+            // panics are outcomes here, not diagnostics
+            std::panic::set_hook(Box::new(|_| {}));
             let prop = args[2].clone();
             let inp = std::io::BufReader::new(std::fs::File::open(&args[3]).expect("open"));
             let mut f = BufWriter::new(std::fs::File::create(&args[4]).expect("create"));
@@ -48,8 +50,13 @@ fn main() {
                     None => (line.as_str(), ""),
                 };
                 let op: u32 = op.parse().expect("op");
-                let toks = wire::parse_toks(rest);
-                let out = ops::run_case(&prop, op, &toks);
+                let out = match std::panic::catch_unwind(|| {
+                    let toks = wire::parse_toks(rest);
+                    ops::run_case(&prop, op, &toks)
+                }) {
+                    Ok(o) => o,
+                    Err(_) => ops::Outcome { result: vec![wire::Tok::N(0xbad)], oracle: vec![] },
+                };
                 let oracle = if out.oracle.is_empty() {
                     "-".to_string()
                 } else {
